@@ -13,7 +13,9 @@ if [ "$PATCH" != "none" ]; then
   git -C "$ROOT/repo" apply "$PATCH" || { echo "$NAME: patch does not apply"; git -C /repo worktree remove --force "$ROOT/repo"; exit 2; }
 fi
 mkdir -p "$ROOT/sim/.cargo" "$ROOT/out"
-sed "s|path = \"/repo\"|path = \"$ROOT/repo\"|; s|path = \"src/main.rs\"|path = \"/verif/sim/src/main.rs\"|" /verif/sim/Cargo.toml > "$ROOT/sim/Cargo.toml"
+# snapshot of the harness sources, so that edits in /verif/sim/src during the run cannot interfere
+cp -r "${SIM_SRC:-/verif/sim/src}" "$ROOT/sim/src"
+sed "s|path = \"/repo\"|path = \"$ROOT/repo\"|" /verif/sim/Cargo.toml > "$ROOT/sim/Cargo.toml"
 cp /verif/sim/Cargo.lock "$ROOT/sim/Cargo.lock"
 cp /verif/sim/.cargo/config.toml "$ROOT/sim/.cargo/config.toml"
 cp /verif/known_findings.json "$ROOT/out/known_findings.json"
